@@ -1720,6 +1720,9 @@ impl<'a> AstResolver<'a> {
     ) -> ResolutionResult<()> {
         log::debug!("resolving include of world `{world}`");
         let mut replacements = HashMap::new();
+        // The `with` names that renamed an item: a name may be both an import and an
+        // export of the included world and then renames both
+        let mut used = HashSet::new();
         for item in &include.with {
             let prev = replacements.insert(item.from.string, item);
             if prev.is_some() {
@@ -1766,7 +1769,8 @@ impl<'a> AstResolver<'a> {
                 ty,
                 original,
                 ExternKind::Import,
-                &mut replacements,
+                &replacements,
+                &mut used,
             )?;
             // A used type of the included world stays a used type (the same type as in
             // its interface), under its possibly replaced name
@@ -1792,7 +1796,8 @@ impl<'a> AstResolver<'a> {
                 ty,
                 name,
                 ExternKind::Export,
-                &mut replacements,
+                &replacements,
+                &mut used,
             )?;
             ty.exports.entry(name).or_insert(*item);
         }
@@ -1801,7 +1806,7 @@ impl<'a> AstResolver<'a> {
         if let Some(missing) = include
             .with
             .iter()
-            .find(|item| replacements.contains_key(item.from.string))
+            .find(|item| !used.contains(item.from.string))
         {
             return Err(Error::MissingWorldInclude {
                 world: include.world.name().to_owned(),
@@ -1818,7 +1823,8 @@ impl<'a> AstResolver<'a> {
             ty: &mut World,
             name: &str,
             kind: ExternKind,
-            replacements: &mut HashMap<&str, &ast::WorldIncludeItem<'a>>,
+            replacements: &HashMap<&'a str, &ast::WorldIncludeItem<'a>>,
+            used: &mut HashSet<&'a str>,
         ) -> ResolutionResult<String> {
             // Check for a id, which doesn't get replaced.
             if name.contains(':') {
@@ -1826,8 +1832,11 @@ impl<'a> AstResolver<'a> {
             }
 
             let (name, span) = replacements
-                .remove(name)
-                .map(|i| (i.to.string, i.to.span))
+                .get(name)
+                .map(|i| {
+                    used.insert(i.from.string);
+                    (i.to.string, i.to.span)
+                })
                 .unwrap_or_else(|| (name, include.world.span()));
 
             let exists = if kind == ExternKind::Import {
